@@ -84,9 +84,15 @@ func readScriptList(p *parser.Parser, pos int64) (ScriptListInfo, error) {
 		}
 	}
 
+	// Several script records may share one script table, and several language
+	// system records may share one LangSys table.  The budget bounds the
+	// total work, so that aliased offsets cannot make a small table
+	// arbitrarily expensive to read.
+	budget := maxScriptListWork
+
 	info := ScriptListInfo{}
 	for _, entry := range entries {
-		err = info.readScriptTable(entry.script, p, pos+int64(entry.offset))
+		err = info.readScriptTable(entry.script, p, pos+int64(entry.offset), &budget)
 		if err != nil {
 			return nil, err
 		}
@@ -95,8 +101,13 @@ func readScriptList(p *parser.Parser, pos int64) (ScriptListInfo, error) {
 	return info, nil
 }
 
+// maxScriptListWork is the maximum total number of LangSys tables and feature
+// indices read for one script list.  A script list without shared tables
+// cannot contain more than 1<<16 of these.
+const maxScriptListWork = 1 << 18
+
 // https://docs.microsoft.com/en-us/typography/opentype/spec/chapter2#script-table-and-language-system-record
-func (info ScriptListInfo) readScriptTable(script otfScript, p *parser.Parser, pos int64) error {
+func (info ScriptListInfo) readScriptTable(script otfScript, p *parser.Parser, pos int64, budget *int) error {
 	err := p.SeekPos(pos)
 	if err != nil {
 		return err
@@ -152,7 +163,7 @@ func (info ScriptListInfo) readScriptTable(script otfScript, p *parser.Parser, p
 	})
 
 	for _, record := range records {
-		ff, err := readLangSysTable(p, pos+int64(record.offset))
+		ff, err := readLangSysTable(p, pos+int64(record.offset), budget)
 		if err != nil {
 			return err
 		}
@@ -168,7 +179,7 @@ func (info ScriptListInfo) readScriptTable(script otfScript, p *parser.Parser, p
 }
 
 // https://docs.microsoft.com/en-us/typography/opentype/spec/chapter2#language-system-table
-func readLangSysTable(p *parser.Parser, pos int64) (*Features, error) {
+func readLangSysTable(p *parser.Parser, pos int64, budget *int) (*Features, error) {
 	err := p.SeekPos(pos)
 	if err != nil {
 		return nil, err
@@ -185,6 +196,13 @@ func readLangSysTable(p *parser.Parser, pos int64) (*Features, error) {
 		return nil, &parser.NotSupportedError{
 			SubSystem: "sfnt/gtab",
 			Feature:   "use of reordering tables",
+		}
+	}
+	*budget -= 1 + int(featureIndexCount)
+	if *budget < 0 {
+		return nil, &parser.InvalidFontError{
+			SubSystem: "sfnt/gtab",
+			Reason:    "script list too complex",
 		}
 	}
 
